@@ -53,20 +53,18 @@ fn k_accessors_reactcomp() {
 // ---------------------------------------------------------------------------------------------------------------
 // K.accessors.reactive_mut: ReactiveMut<T> (query-level accessors) on an entity with / without React<T> (C14, C18).
 // ---------------------------------------------------------------------------------------------------------------
-//# id=K.accessors.reactive_mut props=C14,C18 strength=complete shape="loop-free; entity has React<T> / has none (symbolic); old/new symbolic over u32" tier=off fns=ReactiveMut::get,ReactiveMut::get_mut,ReactiveMut::get_noreact,ReactiveMut::set_if_neq,Reactive::get
-#[kani::proof] #[kani::unwind(10)]
-fn k_accessors_reactive_mut() {
-    let mut world = World::new();
+fn reactive_mut_contract<const HAS: bool>() {
+    let world = World::new();
     let mut queue = CommandQueue::default();
     let old: u32 = kani::any();
     let new: u32 = kani::any();
-    let has: bool = kani::any();
-    let e = world.spawn_empty().id();
-    if has { world.entity_mut(e).insert(React{ entity: e, component: Val(old) }); }
-    let w: *mut World = &mut world;
-    let mut rm = ReactiveMut::<Val>{ components: Query::verif_new(unsafe { &mut *w }) };
-    let ro = Reactive::<Val>{ components: Query::verif_new(unsafe { &mut *w }) };
-    let mut c = Commands::verif_new(&mut queue, unsafe { &*w });
+    let has: bool = HAS;
+    let e = Entity::verif_new(2, 1);
+    let mut comp = React{ entity: e, component: Val(old) };
+    let cp: *mut React<Val> = &mut comp;
+    let mut rm = ReactiveMut::<Val>{ components: Query::verif_single(e, if has { Some(unsafe { &mut *cp }) } else { None }) };
+    let ro = Reactive::<Val>{ components: Query::verif_single(e, if has { Some(unsafe { &mut *cp }) } else { None }) };
+    let mut c = Commands::verif_new(&mut queue, &world);
     assert!(ro.get(e).ok().map(|v| v.0) == (if has { Some(old) } else { None }), "Reactive::get: reads the value iff the entity has the component");
     assert!(rm.get(e).ok().map(|v| v.0) == (if has { Some(old) } else { None }), "ReactiveMut::get: reads the value iff the entity has the component");
     assert!(rm.get_noreact(e).ok().map(|v| v.0) == (if has { Some(old) } else { None }), "ReactiveMut::get_noreact: reads the value iff the entity has the component");
@@ -80,7 +78,11 @@ fn k_accessors_reactive_mut() {
     if !has { assert!(ret.is_none() && n2 == 0, "ReactiveMut::set_if_neq: missing component => None, no trigger"); }
     else if new == old { assert!(ret.is_none() && n2 == 1, "ReactiveMut::set_if_neq: equal value => None, no trigger"); }
     else { assert!(ret == Some(Val(old)) && n2 == 2, "ReactiveMut::set_if_neq: different value => old value returned, exactly one trigger"); }
-    if has { assert!(unsafe { (*w).get::<React<Val>>(e).unwrap().component.0 } == (if new == old { old } else { new }), "ReactiveMut::set_if_neq: stores the new value iff it differs"); }
+    if has { assert!(unsafe { (*cp).component.0 } == (if new == old { old } else { new }), "ReactiveMut::set_if_neq: stores the new value iff it differs"); }
     core::mem::forget(queue);
     core::mem::forget(world);
 }
+//# id=K.accessors.reactive_mut.present props=C14 strength=complete shape="entity carries React<T>; old/new symbolic over u32" tier=quick fns=ReactiveMut::get,ReactiveMut::get_mut,ReactiveMut::get_noreact,ReactiveMut::set_if_neq,Reactive::get
+#[kani::proof] #[kani::unwind(6)] fn k_accessors_reactive_mut_present() { reactive_mut_contract::<true>(); }
+//# id=K.accessors.reactive_mut.absent props=C14,C18 strength=complete shape="entity does not carry React<T> (or is gone)" tier=quick fns=ReactiveMut::get,ReactiveMut::get_mut,ReactiveMut::get_noreact,ReactiveMut::set_if_neq,Reactive::get
+#[kani::proof] #[kani::unwind(6)] fn k_accessors_reactive_mut_absent() { reactive_mut_contract::<false>(); }
